@@ -12,7 +12,7 @@ RULE = ("random programs using constants as gate argument, qubit index, register
 ASSUMPTIONS = ["reference let evaluation in vf/meaning.py", "override values are numbers; overrides that the reference "
                "semantics finds out of range are not judged here (C14)"]
 TIERS = {"quick": {"shards": 8, "budget_s": 110}, "thorough": {"shards": 16, "budget_s": 300}}
-REQUIRE = {"circuits-with-a-branch-statement": 100, "gate-set-in-force": 3000, "via-parser-expand-let-map": 500, "calls-after-earlier-calls-on-same-object": 500, "override-used": 200, "let-sized-register": 100, "let-bound-map": 100, "shadowed-let-in-macro": 20,
+REQUIRE = {"via-parser-expand-macro-and-let": 500, "circuits-with-a-branch-statement": 100, "gate-set-in-force": 3000, "via-parser-expand-let-map": 500, "calls-after-earlier-calls-on-same-object": 500, "override-used": 200, "let-sized-register": 100, "let-bound-map": 100, "shadowed-let-in-macro": 20,
            "via-parser": 100, "let-count": 100}
 
 
@@ -123,7 +123,13 @@ def judge(case):
     if via_parser and case.get("via_parser") == "map":
         # the parser asked to substitute lets AND aliases (expand_let_map=True) under the overrides: every reference of the
         # result is on the fundamental register and denotes the qubit the overridden program denotes
-        o = lib.outcome(lib.parse, text, native, expand_let_map=True, override_dict=dict(ov) or None, import_path=IMPORT_DIR)
+        if case.get("file"):
+            # the same options through parse_jaqal_file
+            from . import c10
+
+            o = lib.outcome(c10.parse_as_file, text, dict(native=native, expand_let_map=True, override_dict=dict(ov) or None, import_path=IMPORT_DIR))
+        else:
+            o = lib.outcome(lib.parse, text, native, expand_let_map=True, override_dict=dict(ov) or None, import_path=IMPORT_DIR)
         if o[0] == "jaqal":
             o1 = lib.outcome(lib.parse, text, native, expand_let=True, override_dict=dict(ov) or None, import_path=IMPORT_DIR)
             if o1[0] == "ok":
@@ -140,6 +146,26 @@ def judge(case):
             fails.append(("result-unresolvable:expand_let_map:" + ex.kind, {"error": str(ex), "ov": ov}))
         except M.OracleError as ex:
             fails.append(("malformed-result:expand_let_map", {"error": str(ex)[:200], "ov": ov}))
+        return "ok", fails
+    if via_parser and case.get("via_parser") == "macro":
+        # the parser asked to expand macros AND substitute lets under the overrides (macros first): what runs is what the
+        # overridden program means
+        o = lib.outcome(lib.parse, text, native, expand_macro=True, expand_let=True, override_dict=dict(ov) or None, import_path=IMPORT_DIR)
+        if o[0] == "jaqal":
+            return "ok", [("rejected-valid-program:expand_macro+expand_let", {"error": o[2], "ov": ov})]
+        if o[0] == "exc":
+            return "ok", [("crash:expand_macro+expand_let:" + o[1], {"error": o[2], "ov": ov})]
+        try:
+            kr = M.core_from_ir(o[1])
+            got_full = M.meaning(kr, expand_macros=True, env={}, resolve=True)
+            if not M.tree_equal(exp_full, got_full):
+                fails.append(("resolved-meaning-differs:expand_macro+expand_let", {"diff": M.first_diff(exp_full, got_full), "ov": ov}))
+            if find_lets((kr.body, tuple(kr.macros.items()), tuple(kr.regs.items()))):
+                fails.append(("constant-left:expand_macro+expand_let", {"ov": ov}))
+        except M.MeaningError as ex:
+            fails.append(("result-unresolvable:expand_macro+expand_let:" + ex.kind, {"error": str(ex), "ov": ov}))
+        except M.OracleError as ex:
+            fails.append(("malformed-result:expand_macro+expand_let", {"error": str(ex)[:200], "ov": ov}))
         return "ok", fails
     # earlier calls on the SAME circuit object with other environments (a parameter sweep over one parsed circuit):
     # whatever they leave behind must not influence the judged call
@@ -287,7 +313,7 @@ def process(ctx, case, seen):
         if clause == "override-dictionary-modified":
             rec.violation(sig("C05", clause), detail, {k: v for k, v in case.items() if k != "_shared_dict"})
             continue
-        base = {"ov": case.get("ov"), "via_parser": case.get("via_parser"), "native": case.get("native")}
+        base = {"ov": case.get("ov"), "via_parser": case.get("via_parser"), "native": case.get("native"), "file": case.get("file")}
         if case.get("prior"):
             base["prior"] = case["prior"]
             if clause in _clauses(dict(base, prog=prog, prior=[])):
@@ -340,6 +366,11 @@ def shard(ctx):
             if case["via_parser"] and rng.random() < 0.4:
                 case["via_parser"] = "map"
                 rec.count("via-parser-expand-let-map")
+                if rng.random() < 0.4:
+                    case["file"] = True
+            elif case["via_parser"] and rng.random() < 0.35:
+                case["via_parser"] = "macro"
+                rec.count("via-parser-expand-macro-and-let")
             if earlier and not case["via_parser"] and rng.random() < 0.6:
                 case["prior"] = list(earlier)
                 rec.count("calls-after-earlier-calls-on-same-object")
